@@ -43,3 +43,25 @@ void h_dtor(void) { SP *p; sp_dtor(p); __CPROVER_assert(0, "SENTINEL reachable")
 #ifdef CV_HAS_sp_await_suspend
 void h_await_suspend(void) { SP *p; cv_i8 *h; sp_await_suspend(p, h); __CPROVER_assert(0, "SENTINEL reachable"); }
 #endif
+/* ---- co_await on a suspend point from a coroutine body that runs OUTSIDE coroutine mode (no queue installed): bounded unit (<= 3 inline
+ * handles; flush_queue replaced by its contract): everything happens INSIDE a freshly installed activation - the transfer target (last
+ * handle) is resumed first, under the queue; the queue is drained and uninstalled; the caller gets the noop handle.  C05: "when the
+ * outermost activation returns to ordinary code no ready coroutine is left un-run", run-to-suspension inside the activation. */
+#ifdef CV_AS_NORMAL_BOUNDED
+void h_await_suspend_normal(void)
+{
+  SP sp; cv_i8 *hv[3]; cv_i8 *h; unsigned n = nondet_unsigned(); __CPROVER_assume(n <= 3);
+  __CPROVER_assume(h != 0 && h != (cv_i8 *)NOOPH);
+  for (unsigned k = 0; k < 3; k++) { __CPROVER_assume(hv[k] != 0); sp.f0.f0._handles[k] = hv[k]; }
+  sp._count_flag = n << 1;
+  cv_exc_pending = 0; *TLS_GUARD = 1; QI = 0; __CPROVER_assume(DQ_WF && dq_head == dq_tail);
+  cv_i64 r0 = gh_n_resume, p0 = dq_npush; gh_RK = r0;
+  cv_i8 *ret = sp_await_suspend(&sp, h);
+  __CPROVER_assert(cv_exc_pending == 0 && QI == 0, "back in normal mode: the activation was uninstalled");
+  __CPROVER_assert(ret == (cv_i8 *)NOOPH, "nothing is left for the caller to transfer to: the target was started inside the activation");
+  __CPROVER_assert(dq_head == dq_tail, "no ready coroutine is left un-run when the activation returns");
+  __CPROVER_assert(sp._count_flag == 0, "the awaited point is emptied");
+  if (n > 0) __CPROVER_assert(gh_n_resume >= r0 + 1 && gh_res_trk == hv[n - 1], "the transfer target (last handle) is the first coroutine resumed, inside the activation");
+  __CPROVER_assert(0, "SENTINEL reachable");
+}
+#endif
